@@ -16,18 +16,19 @@ import (
 
 // Case is one (possibly forged) CRL offered under signature mode verify.
 type Case struct {
-	CAKey   string `json:"ca_key"`
-	Depth   int    `json:"depth"`    // 1: root issues leaves, 2: root -> issuing CA
-	Alg     string `json:"alg"`      // algorithm of the authentic base
-	AKI     string `json:"aki"`      // absent | keyid | issuerserial | both
-	PEM     bool   `json:"pem"`
-	Intake  string `json:"intake"`   // first | refresh
-	Disk    bool   `json:"disk"`
-	Forgery string `json:"forgery"`  // see forgeries
-	Region  string `json:"region,omitempty"`
-	Pos     int    `json:"pos,omitempty"`
-	Bit     int    `json:"bit,omitempty"`
-	Byte    int    `json:"byte,omitempty"` // 0: single bit flip; else XOR mask for a byte edit
+	CAKey    string `json:"ca_key"`
+	Depth    int    `json:"depth"` // 1: root issues leaves, 2: root -> issuing CA
+	Alg      string `json:"alg"`   // algorithm of the authentic base
+	AKI      string `json:"aki"`   // absent | keyid | issuerserial | both
+	PEM      bool   `json:"pem"`
+	Intake   string `json:"intake"` // first | refresh
+	Disk     bool   `json:"disk"`
+	Forgery  string `json:"forgery"` // see forgeries
+	Region   string `json:"region,omitempty"`
+	Pos      int    `json:"pos,omitempty"`
+	Bit      int    `json:"bit,omitempty"`
+	Byte     int    `json:"byte,omitempty"`       // 0: single bit flip; else XOR mask for a byte edit
+	LeafIsCA bool   `json:"leaf_is_ca,omitempty"` // the presented (client) certificate carries CA:TRUE (a sub-CA certificate used for client auth)
 }
 
 var forgeries = []string{
@@ -42,13 +43,14 @@ var regions = []string{"tbs-body", "tbs-header", "inner-alg", "entries", "outer-
 
 func genCase(t *rapid.T) Case {
 	c := Case{
-		CAKey:   rapid.SampledFrom(gen.AllCertKeys).Draw(t, "cakey"),
-		Depth:   rapid.IntRange(1, 2).Draw(t, "depth"),
-		AKI:     rapid.SampledFrom([]string{"absent", "keyid", "issuerserial", "both"}).Draw(t, "aki"),
-		PEM:     rapid.IntRange(0, 3).Draw(t, "pem") == 0,
-		Intake:  rapid.SampledFrom([]string{"first", "first", "refresh"}).Draw(t, "intake"),
-		Disk:    rapid.IntRange(0, 3).Draw(t, "disk") == 0,
-		Forgery: rapid.SampledFrom(forgeries).Draw(t, "forgery"),
+		CAKey:    rapid.SampledFrom(gen.AllCertKeys).Draw(t, "cakey"),
+		Depth:    rapid.IntRange(1, 2).Draw(t, "depth"),
+		AKI:      rapid.SampledFrom([]string{"absent", "keyid", "issuerserial", "both"}).Draw(t, "aki"),
+		PEM:      rapid.IntRange(0, 3).Draw(t, "pem") == 0,
+		Intake:   rapid.SampledFrom([]string{"first", "first", "refresh"}).Draw(t, "intake"),
+		Disk:     rapid.IntRange(0, 3).Draw(t, "disk") == 0,
+		Forgery:  rapid.SampledFrom(forgeries).Draw(t, "forgery"),
+		LeafIsCA: rapid.IntRange(0, 3).Draw(t, "leafisca") == 0,
 	}
 	c.Alg = rapid.SampledFrom(gen.CompatibleAlgs(gen.K(c.CAKey))).Draw(t, "alg")
 	if c.Forgery == "flip" {
@@ -101,7 +103,7 @@ func runCase(c Case, x *ev.Ctx) error {
 	}
 	url := o.URL("/ca.crl")
 	leaf := func(serial string) [][]*x509.Certificate {
-		l := gen.Issue(gen.CertSpec{Key: "p256e", Subject: gen.CN(name + " client " + serial), SerialHex: serial, CDP: []string{url}, ForceSKI: true}, ca)
+		l := gen.Issue(gen.CertSpec{Key: "p256e", Subject: gen.CN(name + " client " + serial), SerialHex: serial, CDP: []string{url}, ForceSKI: true, IsCA: c.LeafIsCA}, ca)
 		ch := []*x509.Certificate{l.Cert, ca.Cert}
 		if c.Depth == 2 {
 			ch = append(ch, root.Cert)
@@ -109,7 +111,7 @@ func runCase(c Case, x *ev.Ctx) error {
 		return [][]*x509.Certificate{ch}
 	}
 	unlisted, listedA, listedX := leaf("0c"), leaf("0a"), leaf("0b")
-	theLeaf := gen.Issue(gen.CertSpec{Key: "p256e", Subject: gen.CN(name + " client 0c"), SerialHex: "0c", CDP: []string{url}, ForceSKI: true}, ca)
+	theLeaf := gen.Issue(gen.CertSpec{Key: "p256e", Subject: gen.CN(name + " client 0c"), SerialHex: "0c", CDP: []string{url}, ForceSKI: true, IsCA: c.LeafIsCA}, ca)
 
 	// signers for forgeries
 	sibling := gen.Issue(gen.CertSpec{Key: otherKey(c.CAKey), Subject: gen.CN(name + " ca"), SerialHex: "1001", IsCA: true}, nil)
@@ -285,6 +287,8 @@ func runCase(c Case, x *ev.Ctx) error {
 		if v := world.Ask(ch, listedX); v.Kind != "ok" {
 			return fmt.Errorf("setup: serial 0b revoked before the refresh: %v", v)
 		}
+		// one authentic refresh first, so that the list in force has also been verified on the refresh path
+		ch.VerifForceUpdate()
 		o.Serve("/ca.crl", encode(offered))
 		ch.VerifForceUpdate()
 		v := world.Ask(ch, listedX)
@@ -368,9 +372,9 @@ func regionOf(p *gen.Parts, region string) (*[]byte, int, int) {
 }
 
 var spec = ev.Spec[Case]{
-	ID:  "C04",
-	Gen: genCase,
-	Run: runCase,
+	ID:   "C04",
+	Gen:  genCase,
+	Run:  runCase,
 	Rule: "rapid draws a PKI (CA key from 14 pool keys incl. RSA-2048/3072 and P-224/256/384/521, depth 1..2), an authentic base CRL (all 10 supported algorithm pairs, AKI form absent/keyId/issuer+serial/both, DER/PEM) and one forgery: single-bit flip or byte edit at a drawn position of a drawn region (tbs body, tbs header, inner algorithm, entries, outer algorithm OID, signature bits); re-signing by a same-name sibling CA, an unrelated CA, the client certificate's own key with issuer/AKI crafted to match it, a CA whose key usage lacks cRLSign, a configured trusted signer with / without cRLSign; algorithm swaps (RSA-PSS, Ed25519, OID of the other key family, hash swap). The document is offered on the first-load path (CDP handshake, strict) or as a refresh after an authentic load. 'In force' is observed behaviourally (unlisted probe accepted / new-only probe revoked). Oracle: in force => authentic by the reference (Hash(raw tbs) under the outer OID verified with crypto/rsa or crypto/ecdsa against an entitled certificate: CA above the leaf or trusted signer, matching issuer name or AKI, key usage permitting cRLSign); the unforged and trusted-signer documents must be in force (vacuity guard). Non-trivial: every asserted case; distinct by (forgery, region, alg, AKI, intake, key, depth, position bucket).",
 	Assumptions: []string{
 		"flips in the outer header, outer algorithm parameters and the BIT STRING unused-bits octet do not touch the signed content, the signature bits or the algorithm OID and are not asserted",
